@@ -460,6 +460,29 @@ func runOperator(kc *kernelCtx, b *Block) *Unit {
 		return u
 	}
 	mr := &machineRun{kc: kc, sp: sp, top: top, site: sites[sp.Site], cells: cellTypes(top), u: u, props: b.props()}
+	// user functions the contract names as events (callfn.finally, alias fallback=finally()) must be parameters / cells of the
+	// operator: a renamed parameter would otherwise only show as an event that never occurs
+	{
+		have := map[string]bool{}
+		for n := range mr.cells {
+			have[n] = true
+		}
+		for _, f := range closureTree(top) {
+			for _, p := range f.Params {
+				have[p.Name()] = true
+			}
+		}
+		re := regexp.MustCompile(`callfn\.([A-Za-z_][A-Za-z0-9_]*)`)
+		seen := map[string]bool{}
+		for _, c := range b.Clauses {
+			for _, m := range re.FindAllStringSubmatch(c.Text, -1) {
+				if n := m[1]; n != "ANY" && !have[n] && !seen[n] {
+					seen[n] = true
+					u.Errs = append(u.Errs, fmt.Sprintf("operator contract %s does not bind: no function parameter named %s", b.Name, n))
+				}
+			}
+		}
+	}
 	u.Funcs = append(u.Funcs, b.Name)
 	for _, f := range mr.site.Closures {
 		u.Funcs = append(u.Funcs, funcKey(f))
